@@ -357,3 +357,27 @@ Qed.
 
 Lemma finish_emit : forall x ob, finish (emit x ob) = finish ob ++ [x].
 Proof. intros. apply finish_emit_many. Qed.
+
+(* ---- more about clean_done: nothing is dropped when the number of streams is unchanged ---- *)
+Lemma filter_len_le : forall (A : Type) (f : A -> bool) (l : list A), (length (filter f l) <= length l)%nat.
+Proof. induction l as [|x r IH]; simpl; [lia|]. destruct (f x); simpl; lia. Qed.
+
+Lemma filter_same_length : forall (A : Type) (f : A -> bool) (l : list A),
+  length (filter f l) = length l -> filter f l = l.
+Proof.
+  induction l as [|x r IH]; simpl; intros H; [reflexivity|].
+  destruct (f x); simpl in *.
+  - f_equal. apply IH. lia.
+  - pose proof (filter_len_le A f r). lia.
+Qed.
+
+Lemma clean_done_same_len : forall ss ss1, Forall sst_ok ss -> clean_done ss = Some ss1 ->
+  length ss1 = length ss -> map flat ss1 = map flat ss /\ map idx ss1 = map idx ss.
+Proof.
+  intros ss ss1 Hok Hcd Hlen.
+  destruct (fetch_all_ok ss Hok) as [ss' [Hfa [_ [Hfl [Hid _]]]]].
+  unfold clean_done in Hcd. rewrite Hfa in Hcd. injection Hcd as Hcd. subst ss1.
+  assert (Hl : length ss' = length ss).
+  { rewrite <- (map_length flat ss'), Hfl, map_length. reflexivity. }
+  rewrite filter_same_length; [split; assumption | lia].
+Qed.
